@@ -489,7 +489,8 @@ func declaredTwice(text string) string {
 	}
 	// strip // comments
 	var sb strings.Builder
-	for _, line := range strings.Split(text, "\n") {
+	// (the lexer ends a comment at \r as well as at \n: lexer.go skipComment)
+	for _, line := range strings.FieldsFunc(text, func(c rune) bool { return c == '\n' || c == '\r' }) {
 		if i := strings.Index(line, "//"); i >= 0 {
 			line = line[:i]
 		}
